@@ -323,7 +323,11 @@ func H_C01_order() {
 	dir := vxrt.Dir()
 	path := dir + "/f.snap"
 	var content string
-	switch vxrt.Choice("order", 4) {
+	switch vxrt.Choice("order", 6) {
+	case 4: // an editor removed the blank lines between entries and the final newline
+		content = "[TestT - 1]\n\"one\"\n---\n[TestT - 2]\n\"two\"\n---"
+	case 5: // comments and blank lines a reviewer left between the entries
+		content = "# recorded 2024\n\n[TestT - 1]\n\"one\"\n---\n\n\n# second\n[TestT - 2]\n\"two\"\n---\n\n"
 	case 3: // in call order, but with CRLF line endings (an autocrlf checkout)
 		content = "\r\n[TestT - 1]\r\n\"one\"\r\n---\r\n\r\n[TestT - 2]\r\n\"two\"\r\n---\r\n"
 	case 0:
@@ -346,4 +350,41 @@ func H_C01_order() {
 		vxrt.Assert(len(t.errors) == 0 && len(t.logs) == 0, "C01:replay-no-error")
 		vxrt.Assert(vxrt.FSStamp() == stamp && vxReadFile(path) == content, "C01:replay-no-write")
 	}
+}
+
+// H_C01_oneconfig: one Config with a Filename serves keyed and standalone calls of a test, in
+// either order: what the first execution records, the second replays without failure, log or write.
+func H_C01_oneconfig() {
+	vxrt.CI(false)
+	vxrt.YAMLAssume(true)
+	dir := vxrt.Dir()
+	c := WithConfig(Dir(dir), Filename("f"))
+	order := vxrt.Choice("order", 3)
+	keyed := vxrt.Choice("keyed-api", 3) // MatchSnapshot, MatchJSON, MatchYAML
+	body := func(t *vxMockT) {
+		switch order {
+		case 0:
+			vxCallAPI(c, keyed, t, `"k"`)
+			c.MatchStandaloneSnapshot(t, "s")
+		case 1:
+			c.MatchStandaloneSnapshot(t, "s")
+			vxCallAPI(c, keyed, t, `"k"`)
+		default:
+			c.MatchStandaloneJSON(t, `"j"`)
+			vxCallAPI(c, keyed, t, `"k"`)
+			c.MatchStandaloneSnapshot(t, "s")
+		}
+	}
+	t1 := vxNewT("TestO")
+	body(t1)
+	t1.end()
+	vxrt.Assert(len(t1.errors) == 0, "C01:record-no-error")
+	stamp, before := vxrt.FSStamp(), vxDumpDir(dir)
+	t2 := vxNewT("TestO")
+	body(t2)
+	t2.end()
+	vxrt.Assert(len(t2.errors) == 0 && len(t2.logs) == 0, "C01:replay-no-error")
+	vxrt.Assert(vxrt.FSStamp() == stamp && vxDumpDir(dir) == before, "C01:replay-no-write")
+	names, _ := vxOsReadDirNames(dir)
+	vxrt.Assert(len(names) == 2+order/2, "C11:nothing-else-created")
 }
